@@ -19,6 +19,7 @@ import Proofs.EndToEnd
 import Proofs.EndToEndGrid
 import Proofs.EndToEndText
 import Props.C03
+import Proofs.ProxySrc
 namespace Pydap.C02
 open Pydap
 
@@ -484,5 +485,48 @@ example : E2E.TextOk (E2E.answerDs "ds".toList "a".toList ["m0".toList] .int16 [
   exact ⟨by decide, by decide⟩
 example : Dds.NameOk "ds".toList ∧ Dds.NameOk "a".toList ∧ Dds.NameOk "m0".toList :=
   ⟨⟨by decide, by decide⟩, ⟨by decide, by decide⟩, ⟨by decide, by decide⟩⟩
+
+/-! ### the tie by translation: the *source text* of `pad_hyperslab` and of the projection `BaseProxyDap2.__getitem__` sends
+
+`Gen.src_pad_hyperslab` is the whole body of handlers/dap.py `pad_hyperslab`, `Gen.src_proxy_request` the first statement
+of `BaseProxyDap2.__getitem__` followed by the query part it hands to `urlunparse`, both translated on every run by
+harness/py2lean.py from the working tree (PydapModel/Generated/ProxySrc.lean).  Interpreted by MiniPy they compute the
+model's `openSlice` (every URL hyperslab, every constrained shape) and `requestText` followed by `"&"` and the quoted
+query.  Opaque in the second block (named in the generator): `combine_slices(self.slice, fix_slice(index, self.shape))`,
+`hyperslab(index)`, `_quote(query)` — what they compute per axis is tied by `C03_source_fix_slice`, `C03_source_combine_slices`,
+`C03_source_hyperslab`; the loops of `fix_slice` / `combine_slices` (`zip_longest`, Ellipsis expansion) and `urlunparse` /
+`rstrip("&")` are not carried.  Carried: the hyperslab that is printed is that of the COMBINED index (`@hyperslab.arg0`),
+after the variable's id, before the `&`. -/
+
+section SourceTie
+open MiniPy
+
+/-- `pad_hyperslab(index, shape)` is `openSlice`: the parsed slices as they are, then one `slice(None)` per remaining
+    dimension of the constrained shape (none when the hyperslab has at least the rank) -/
+theorem C02_source_pad_hyperslab (pre : List PSlice) (cshape : List Nat) :
+    runItem [("index", .tuple (pre.map sliceItemOf)), ("shape", .ilist (cshape.map Int.ofNat))] Gen.src_pad_hyperslab "@ret"
+      = .ok (.tuple ((openSlice pre cshape).map idxItem)) := src_pad_hyperslab_eq pre cshape
+
+/-- the projection sent for `proxy[idx]` is `requestText` — the id, then the hyperslab of
+    `combine_slices(self.slice, fix_slice(idx, self.shape))` — followed by `&` and the quoted query of the base URL -/
+theorem C02_source_request (id q : List Char) (stored : List Idx) (cshape : List Nat) (idx : List Idx)
+    (userIndex : MiniPy.Val) :
+    let combined := MiniPy.Val.tuple ((proxyIndex stored cshape idx).map sliceItemOf)
+    let env : Env := [("index", userIndex), ("self.id", .str (codesOf id)), ("@combined", combined),
+      ("@hyperslab", .str (codesOf (hyperslabText (proxyIndex stored cshape idx)))), ("@quoted_query", .str (codesOf q))]
+    runItem env Gen.src_proxy_request "@query"
+      = .ok (.str (codesOf (requestText id stored cshape idx ++ '&' :: q))) ∧
+    runItem env Gen.src_proxy_request "@hyperslab.arg0" = .ok combined :=
+  src_proxy_request_eq id q stored cshape idx userIndex
+
+/-- non-vacuity: a one-slice hyperslab on a rank-3 variable is padded with two `slice(None)`; a hyperslab longer than
+    the rank is kept whole -/
+example : runItem [("index", .tuple [.slice (some 1) (some 5) (some 2)]), ("shape", .ilist [2, 4, 6])]
+      Gen.src_pad_hyperslab "@ret"
+    = .ok (.tuple [.slice (some 1) (some 5) (some 2), .slice none none none, .slice none none none]) ∧
+    openSlice [⟨some 1, some 5, some 2⟩, PSlice.all] [7] = [.sl ⟨some 1, some 5, some 2⟩, .sl PSlice.all] :=
+  ⟨rfl, rfl⟩
+
+end SourceTie
 
 end Pydap.C02
